@@ -1,74 +1,182 @@
-// Correspondence driver for family `misuse` (C11 part B): documented misuse of passive arrays
-// (Vector, Matrix, intVector, intMatrix).  Grammar: see lean/Driver/Misuse.lean.  One line per op:
-//   <ok | ok view[dims]=v,… | ok elem=v | EXC <class>> | <handle>:<d|i>[dims]=v,v,… | …     (every array involved, after the op)
-//   bad-op      not an operation of the protocol (unknown handle, wrong rank / element type)
+// Correspondence driver for family `misuse` (C11 part B): documented misuse of arrays.
+// Pool objects (handle -> object), kind letter in `new` and in every shown line:
+//   d  Array<1..4,Real,false>     i  Array<1..4,int,false>      a  Array<1..2,Real,true> (recorded on the driver's Stack)
+//   f  FixedArray<Real,false,3> / FixedArray<Real,false,2,3>     s  SymmMatrix     t  TridiagMatrix
+// Grammar: see lean/Driver/Misuse.lean.  One line per op:
+//   <ok | ok view[dims]=v,… | ok elem=v | EXC <class>[ rec+dS+dO]> | <handle>:<kind>[dims]=v,v,… | …   (every object involved, after the op)
+//   bad-op      not an operation of the protocol (unknown handle, wrong rank / kind)
 //   unmodelled  well-formed but outside the Lean model (never generated; nothing is executed)
-// Entries are small integers, so int and double arithmetic (and the BLAS products) are exact.
+// ` rec+dS+dO` (only when an active array is involved in a FAILED op): statements / operations the failed op pushed on the stack.
+// Entries are small integers, so int and double arithmetic (and the BLAS products) are exact; a non-integral double
+// (mean, norm2) is printed as x<16 hex digits of its bit pattern>.
+//
+// The file is compiled several times (MISUSE_PART = 0..10, one translation unit each, see checks/c11.py build_b):
+// part 0 holds main() and the operations on single objects, the other parts the template-heavy operation families.
 #include "spy.h"
 #include <map>
 #include <cmath>
 #include <type_traits>
 using namespace adept;
 
+#ifndef MISUSE_PART
+#define MISUSE_PART -1      // -1: everything in one translation unit
+#endif
+#define PART(n) (MISUSE_PART == -1 || MISUSE_PART == (n))
+
+enum Kind { K_INT = 0, K_DBL = 1, K_ACT = 2, K_FIX = 3, K_SYM = 4, K_TRI = 5 };
+static const char KIND_LETTER[] = "idafst";
+
+typedef FixedArray<Real, false, 3> Fix1;
+typedef FixedArray<Real, false, 2, 3> Fix2;
+
 struct Entry {
-  int ty;    // 0 = int, 1 = Real
-  int rank;  // 1 or 2
-  Vector* dv; Matrix* dm; intVector* iv; intMatrix* im;
-  Entry() : ty(0), rank(0), dv(0), dm(0), iv(0), im(0) {}
-  void destroy() { delete dv; delete dm; delete iv; delete im; dv = 0; dm = 0; iv = 0; im = 0; }
+  int kind; int rank; void* p;
+  bool input;      // active array whose identity (gradient indices) is unchanged since the last `rec`
+  Entry() : kind(0), rank(0), p(0), input(false) {}
 };
-static std::map<long, Entry> pool;
 
-template <class F> static void with(Entry& e, F&& f) {
-  if (e.ty == 1 && e.rank == 1) f(*e.dv);
-  else if (e.ty == 1 && e.rank == 2) f(*e.dm);
-  else if (e.ty == 0 && e.rank == 1) f(*e.iv);
-  else f(*e.im);
-}
+// ---- type <-> (kind, rank)
+template <class A> struct tr;
+template <int R> struct tr<Array<R, int, false> > { static const int kind = K_INT, rank = R; typedef int elem; static const bool dyn = true, act = false; };
+template <int R> struct tr<Array<R, Real, false> > { static const int kind = K_DBL, rank = R; typedef Real elem; static const bool dyn = true, act = false; };
+template <int R> struct tr<Array<R, Real, true> > { static const int kind = K_ACT, rank = R; typedef Real elem; static const bool dyn = true, act = true; };
+template <> struct tr<Fix1> { static const int kind = K_FIX, rank = 1; typedef Real elem; static const bool dyn = false, act = false; };
+template <> struct tr<Fix2> { static const int kind = K_FIX, rank = 2; typedef Real elem; static const bool dyn = false, act = false; };
+template <> struct tr<SymmMatrix> { static const int kind = K_SYM, rank = 2; typedef Real elem; static const bool dyn = false, act = false; };
+template <> struct tr<TridiagMatrix> { static const int kind = K_TRI, rank = 2; typedef Real elem; static const bool dyn = false, act = false; };
 
-static std::string excname(const std::exception& e) {
-  if (dynamic_cast<const size_mismatch*>(&e)) return "size_mismatch";
-  if (dynamic_cast<const inner_dimension_mismatch*>(&e)) return "inner_dimension_mismatch";
-  if (dynamic_cast<const empty_array*>(&e)) return "empty_array";
-  if (dynamic_cast<const invalid_dimension*>(&e)) return "invalid_dimension";
-  if (dynamic_cast<const index_out_of_bounds*>(&e)) return "index_out_of_bounds";
-  if (dynamic_cast<const invalid_operation*>(&e)) return "invalid_operation";
-  if (dynamic_cast<const matrix_ill_conditioned*>(&e)) return "matrix_ill_conditioned";
-  if (dynamic_cast<const feature_not_available*>(&e)) return "feature_not_available";
-  if (dynamic_cast<const adept::exception*>(&e)) return std::string("other-adept-exception:") + e.what();
-  return std::string("std-exception:") + e.what();
+template <class A> static A& as(Entry& e) { return *static_cast<A*>(e.p); }
+template <class A> static bool is(const Entry& e) { return e.kind == tr<A>::kind && e.rank == tr<A>::rank; }
+
+// dispatch on the dynamic type of an entry; f is a generic lambda, returns false when the (kind, rank) is not in the list
+template <class F> static bool withPassiveDyn(Entry& e, F&& f) {
+  if (e.kind == K_DBL) switch (e.rank) {
+    case 1: f(as<Array<1, Real, false> >(e)); return true; case 2: f(as<Array<2, Real, false> >(e)); return true;
+    case 3: f(as<Array<3, Real, false> >(e)); return true; case 4: f(as<Array<4, Real, false> >(e)); return true; }
+  if (e.kind == K_INT) switch (e.rank) {
+    case 1: f(as<Array<1, int, false> >(e)); return true; case 2: f(as<Array<2, int, false> >(e)); return true;
+    case 3: f(as<Array<3, int, false> >(e)); return true; case 4: f(as<Array<4, int, false> >(e)); return true; }
+  return false;
 }
+template <class F> static bool withDbl(Entry& e, F&& f) {
+  if (e.kind == K_DBL) switch (e.rank) {
+    case 1: f(as<Array<1, Real, false> >(e)); return true; case 2: f(as<Array<2, Real, false> >(e)); return true;
+    case 3: f(as<Array<3, Real, false> >(e)); return true; case 4: f(as<Array<4, Real, false> >(e)); return true; }
+  return false;
+}
+template <class F> static bool withInt(Entry& e, F&& f) {
+  if (e.kind == K_INT) switch (e.rank) {
+    case 1: f(as<Array<1, int, false> >(e)); return true; case 2: f(as<Array<2, int, false> >(e)); return true;
+    case 3: f(as<Array<3, int, false> >(e)); return true; case 4: f(as<Array<4, int, false> >(e)); return true; }
+  return false;
+}
+template <class F> static bool withAct(Entry& e, F&& f) {
+  if (e.kind == K_ACT) switch (e.rank) { case 1: f(as<aVector>(e)); return true; case 2: f(as<aMatrix>(e)); return true; }
+  return false;
+}
+template <class F> static bool withOther(Entry& e, F&& f) {
+  if (e.kind == K_FIX && e.rank == 1) { f(as<Fix1>(e)); return true; }
+  if (e.kind == K_FIX && e.rank == 2) { f(as<Fix2>(e)); return true; }
+  if (e.kind == K_SYM) { f(as<SymmMatrix>(e)); return true; }
+  if (e.kind == K_TRI) { f(as<TridiagMatrix>(e)); return true; }
+  return false;
+}
+template <class F> static bool withAny(Entry& e, F&& f) { return withPassiveDyn(e, f) || withAct(e, f) || withOther(e, f); }
+
+typedef std::vector<std::string> Words;
+struct Ctx {
+  std::vector<long> hs;      // handles shown after the op
+  std::ostringstream out;    // "ok…" part
+  uIndex ns0, no0;           // statements / operations on the stack when the (failing part of the) op began
+  Ctx() : ns0(0), no0(0) {}
+};
+enum { R_NOTMINE = 0, R_DONE = 1, R_BAD = 2, R_UNMODELLED = 3 };
+
+#if PART(0)
+std::map<long, Entry> pool;
+verif::SpyStack* g_stack = 0;
+#else
+extern std::map<long, Entry> pool;
+extern verif::SpyStack* g_stack;
+#endif
+// a function that returns an array or a scalar by value (sum(x,dim), diag_vector(expr), sum(expr)) has been evaluated into
+// a temporary, recording its own complete statements; what follows is the assignment of that temporary
+static void rebase(Ctx& c) { c.ns0 = g_stack->n_statements(); c.no0 = g_stack->n_operations(); }
 
 static std::string num(double x) {
   char b[64];
   if (x == std::floor(x) && std::fabs(x) < 9.0e15) snprintf(b, sizeof b, "%lld", (long long)x);
-  else snprintf(b, sizeof b, "%.17g", x);
+  else { unsigned long long u; memcpy(&u, &x, 8); snprintf(b, sizeof b, "x%016llx", u); }
   return b;
 }
 
-template <class T> static void show1(std::ostream& os, const Array<1, T, false>& a) {
-  os << "[" << a.dimension(0) << "]=";
-  for (Index i = 0; i < a.dimension(0); ++i) { if (i) os << ","; os << num((double)a(i)); }
+static long pat(long seed, long t) { long v = (seed + 3 * t) % 7; if (v < 0) v += 7; return v - 3; }
+
+// ---- logical content in row-major index order
+template <int R, class T, bool Act, class F> static void each_raw(Array<R, T, Act>& a, F&& f) {
+  if (a.empty()) return;
+  Index idx[R]; for (int d = 0; d < R; ++d) { idx[d] = 0; if (a.dimension(d) <= 0) return; }
+  long t = 0;
+  for (;;) {
+    Index off = 0; for (int d = 0; d < R; ++d) off += idx[d] * a.offset(d);
+    f(t++, a.data()[off]);
+    int d = R - 1;
+    while (d >= 0 && ++idx[d] >= a.dimension(d)) { idx[d] = 0; --d; }
+    if (d < 0) break;
+  }
 }
-template <class T> static void show2(std::ostream& os, const Array<2, T, false>& a) {
-  os << "[" << a.dimension(0) << "x" << a.dimension(1) << "]=";
-  bool first = true;
-  for (Index i = 0; i < a.dimension(0); ++i)
-    for (Index j = 0; j < a.dimension(1); ++j) { if (!first) os << ","; first = false; os << num((double)a(i, j)); }
+template <int R, class T, bool Act> static void show_arr(std::ostream& os, Array<R, T, Act>& a) {
+  os << "[";
+  for (int d = 0; d < R; ++d) { if (d) os << "x"; os << a.dimension(d); }
+  os << "]=";
+  each_raw(a, [&](long t, T& v) { if (t) os << ","; os << num((double)v); });
 }
-template <class T> static void show(std::ostream& os, const Array<1, T, false>& a) { show1(os, a); }
-template <class T> static void show(std::ostream& os, const Array<2, T, false>& a) { show2(os, a); }
+static void show_arr(std::ostream& os, Fix1& a) {
+  os << "[3]="; for (int i = 0; i < 3; ++i) { if (i) os << ","; os << num(a(i)); }
+}
+static void show_arr(std::ostream& os, Fix2& a) {
+  os << "[2x3]="; for (int i = 0; i < 2; ++i) for (int j = 0; j < 3; ++j) { if (i + j) os << ","; os << num(a(i, j)); }
+}
+template <class E> static void show_arr(std::ostream& os, SpecialMatrix<Real, E, false>& a) {
+  const SpecialMatrix<Real, E, false>& c = a;
+  Index n = c.dimension();
+  os << "[" << n << "x" << n << "]=";
+  for (Index i = 0; i < n; ++i) for (Index j = 0; j < n; ++j) { if (i + j) os << ","; os << num(c(i, j)); }
+}
+// an array-valued result (a temporary the library returned): shown as a view
+template <class A> static void show_view(Ctx& c, A& a) { c.out << "ok view"; show_arr(c.out, a); }
+
+template <int R, class T> static void fill_pattern(Array<R, T, false>& a, long seed) {
+  each_raw(a, [&](long t, T& v) { v = (T)pat(seed, t); });
+}
+// active arrays are assigned element by element (each a recorded statement without right-hand side), so that the
+// gradient indices they may have inherited from dead objects are defined by the recording
+static void fill_pattern(aVector& a, long seed) { for (Index i = 0; i < a.dimension(0); ++i) a(i) = (Real)pat(seed, i); }
+static void fill_pattern(aMatrix& a, long seed) {
+  for (Index i = 0; i < a.dimension(0); ++i) for (Index j = 0; j < a.dimension(1); ++j) a(i, j) = (Real)pat(seed, i * a.dimension(1) + j);
+}
+static void fill_pattern(Fix1& a, long seed) { for (int i = 0; i < 3; ++i) a(i) = (Real)pat(seed, i); }
+static void fill_pattern(Fix2& a, long seed) { for (int i = 0; i < 2; ++i) for (int j = 0; j < 3; ++j) a(i, j) = (Real)pat(seed, i * 3 + j); }
+static void fill_pattern(SymmMatrix& a, long seed) {
+  Index n = a.dimension();
+  for (Index i = 0; i < n; ++i) for (Index j = 0; j <= i; ++j) a(i, j) = (Real)pat(seed, i * n + j);
+}
+static void fill_pattern(TridiagMatrix& a, long seed) {
+  Index n = a.dimension();
+  for (Index i = 0; i < n; ++i) for (Index j = (i ? i - 1 : 0); j <= i + 1 && j < n; ++j) a(i, j) = (Real)pat(seed, i * n + j);
+}
+
+static void destroy(Entry& e) { if (e.p) withAny(e, [&](auto& A) { delete &A; }); e.p = 0; }
 
 static std::string show_handle(long k) {
   std::ostringstream os;
   os << k << ":";
   if (!pool.count(k)) { os << "-"; return os.str(); }
   Entry& e = pool[k];
-  os << (e.ty ? "d" : "i");
-  with(e, [&](auto& A) { show(os, A); });
+  os << KIND_LETTER[e.kind];
+  withAny(e, [&](auto& A) { show_arr(os, A); });
   return os.str();
 }
-
 static std::string involved(const std::vector<long>& hs) {
   std::string s;
   std::vector<long> seen;
@@ -82,16 +190,6 @@ static std::string involved(const std::vector<long>& hs) {
   return s;
 }
 
-static long pat(long seed, long t) { long v = (seed + 3 * t) % 7; if (v < 0) v += 7; return v - 3; }
-
-template <class T> static void fill_pattern(Array<1, T, false>& a, long seed) {
-  for (Index i = 0; i < a.dimension(0); ++i) a(i) = (T)pat(seed, i);
-}
-template <class T> static void fill_pattern(Array<2, T, false>& a, long seed) {
-  for (Index i = 0; i < a.dimension(0); ++i)
-    for (Index j = 0; j < a.dimension(1); ++j) a(i, j) = (T)pat(seed, i * a.dimension(1) + j);
-}
-
 static bool is_int(const std::string& s) {
   if (s.empty()) return false;
   size_t p = (s[0] == '-' || s[0] == '+') ? 1 : 0;
@@ -100,52 +198,527 @@ static bool is_int(const std::string& s) {
   return true;
 }
 static bool is_nat(const std::string& s) { return is_int(s) && s[0] != '-' && s[0] != '+'; }
+static bool same_kind(const Entry& a, const Entry& b) { return a.kind == b.kind && a.rank == b.rank; }
+static long L(const std::string& s) { return atol(s.c_str()); }
+// the entry of an operand word, or 0
+static Entry* ent(const std::string& s) { if (!is_nat(s) || !pool.count(L(s))) return 0; return &pool[L(s)]; }
+// the object of an operand word if it is an A, else 0
+template <class A> static A* obj(const std::string& s) { Entry* e = ent(s); return (e && is<A>(*e)) ? &as<A>(*e) : 0; }
+template <class A> static bool same_dims(const A& x, const A& y) {
+  for (int d = 0; d < tr<A>::rank; ++d) if (x.dimension(d) != y.dimension(d)) return false;
+  return true;
+}
+static int binop(const std::string& s) { return s == "add" ? 0 : s == "sub" ? 1 : s == "mul" ? 2 : -1; }
 
-static bool same_kind(const Entry& a, const Entry& b) { return a.ty == b.ty && a.rank == b.rank; }
+#ifdef ADEPT_BOUNDS_CHECKING
+static const bool BOUNDS = true;
+#else
+static const bool BOUNDS = false;
+#endif
 
-template <class A> struct rank_of;
-template <int R, class T> struct rank_of<Array<R, T, false> > { static const int value = R; };
-template <class A> struct elem_of;
-template <int R, class T> struct elem_of<Array<R, T, false> > { typedef T type; };
+int exec_elementwise(const Words& w, Ctx& c);     // part 1: asg cp cadd csub cmul where wherex eor on passive dynamic arrays
+int exec_reduce_d(const Words& w, Ctx& c);        // part 2: red / redd on Real arrays
+int exec_reduce_i(const Words& w, Ctx& c);        // part 3: red / redd on int arrays, all/any/count on both
+int exec_expand(const Words& w, Ctx& c);          // part 4: loc find dot outer spread diagv diagm
+int exec_special(const Words& w, Ctx& c);         // part 5: FixedArray / SymmMatrix / TridiagMatrix targets and operands
+int exec_active(const Words& w, Ctx& c);          // part 6: active arrays
+int exec_fill(const Words& w, Ctx& c);            // part 7: fill (<<), matmul, inv, solve
 
-// run-time list of pieces fed to one Allocator
+// =====================================================================================================================
+#if PART(1) || PART(8)
+template <class A> static int elementwise_on(const Words& w, Ctx& c) {
+  typedef typename tr<A>::elem T;
+  A& t = as<A>(pool[L(w[1])]);
+  if (w[0] == "asg" && w.size() == 5) {
+    A* x = obj<A>(w[2]); A* y = obj<A>(w[4]); int op = binop(w[3]);
+    if (!x || !y || op < 0) return R_BAD;
+    c.hs.push_back(L(w[2])); c.hs.push_back(L(w[4]));
+    if (op == 0) t = *x + *y; else if (op == 1) t = *x - *y; else t = *x * *y;
+    c.out << "ok"; return R_DONE;
+  }
+  if ((w[0] == "cp" || w[0] == "cadd" || w[0] == "csub" || w[0] == "cmul") && w.size() == 3) {
+    A* x = obj<A>(w[2]);
+    if (!x) return R_BAD;
+    c.hs.push_back(L(w[2]));
+    if (w[0] == "cp") t = *x; else if (w[0] == "cadd") t += *x; else if (w[0] == "csub") t -= *x; else t *= *x;
+    c.out << "ok"; return R_DONE;
+  }
+  if (w[0] == "where" && w.size() == 4) {
+    A* x = obj<A>(w[3]); Entry* em = ent(w[2]);
+    if (!x || !em || em->rank != tr<A>::rank) return R_BAD;
+    c.hs.push_back(L(w[2])); c.hs.push_back(L(w[3]));
+    bool ok = withPassiveDyn(*em, [&](auto& M) {
+      typedef typename std::decay<decltype(M)>::type MT;
+      if constexpr (tr<MT>::rank == tr<A>::rank) t.where(M > (typename tr<MT>::elem)0) = *x;
+    });
+    if (!ok) return R_BAD;
+    c.out << "ok"; return R_DONE;
+  }
+  if (w[0] == "wherex" && w.size() == 6) {       // T.where(M1 > M2) = X + Y
+    A* m1 = obj<A>(w[2]); A* m2 = obj<A>(w[3]); A* x = obj<A>(w[4]); A* y = obj<A>(w[5]);
+    if (!m1 || !m2 || !x || !y) return R_BAD;
+    for (int q = 2; q < 6; ++q) c.hs.push_back(L(w[q]));
+    t.where(*m1 > *m2) = *x + *y;
+    c.out << "ok"; return R_DONE;
+  }
+  if (w[0] == "eor" && w.size() == 5) {          // T.where(M > 0) = either_or(C, D)
+    A* m = obj<A>(w[2]); A* cc = obj<A>(w[3]); A* dd = obj<A>(w[4]);
+    if (!m || !cc || !dd) return R_BAD;
+    for (int q = 2; q < 5; ++q) c.hs.push_back(L(w[q]));
+    t.where(*m > (T)0) = either_or(*cc, *dd);
+    c.out << "ok"; return R_DONE;
+  }
+  return R_NOTMINE;
+}
+#endif
+int elementwise_d(const Words& w, Ctx& c);        // part 1
+int elementwise_i(const Words& w, Ctx& c);        // part 8
+#if PART(1)
+int elementwise_d(const Words& w, Ctx& c) {
+  int r = R_BAD;
+  withDbl(pool[L(w[1])], [&](auto& A) { r = elementwise_on<typename std::decay<decltype(A)>::type>(w, c); });
+  return r;
+}
+int exec_elementwise(const Words& w, Ctx& c) {
+  if (!(w[0] == "asg" || w[0] == "cp" || w[0] == "cadd" || w[0] == "csub" || w[0] == "cmul" || w[0] == "where" ||
+        w[0] == "wherex" || w[0] == "eor")) return R_NOTMINE;
+  Entry& ek = pool[L(w[1])];
+  if (ek.kind != K_INT && ek.kind != K_DBL) return R_NOTMINE;
+  // operands of another kind than the target: the mixed forms of part 5
+  for (size_t q = 2; q < w.size(); ++q) {
+    if (w[0] == "asg" && q == 3) continue;
+    if (w[0] == "where" && q == 2) continue;
+    Entry* e = ent(w[q]);
+    if (!e) return R_BAD;
+    if (!same_kind(*e, ek)) return (w[0] == "asg" || w[0] == "cp") ? R_NOTMINE : R_BAD;
+  }
+  int r = ek.kind == K_DBL ? elementwise_d(w, c) : elementwise_i(w, c);
+  return r == R_NOTMINE ? R_BAD : r;
+}
+#endif
+#if PART(8)
+int elementwise_i(const Words& w, Ctx& c) {
+  int r = R_BAD;
+  withInt(pool[L(w[1])], [&](auto& A) { r = elementwise_on<typename std::decay<decltype(A)>::type>(w, c); });
+  return r;
+}
+#endif
+
+// =====================================================================================================================
+// reductions of the expression (X op Y): whole, and along a dimension
+template <class A, class E> static int reduce_expr(const std::string& fn, const E& e, bool has_dim, int dim, Ctx& c) {
+  typedef typename tr<A>::elem T;
+  static const int R = tr<A>::rank;
+  static const bool REAL = std::is_same<T, Real>::value;
+  int f = fn == "sum" ? 0 : fn == "mean" ? 1 : fn == "product" ? 2 : fn == "minval" ? 3 : fn == "maxval" ? 4 : fn == "norm2" ? 5 : -1;
+  if (f < 0 || (!REAL && (f == 1 || f == 5))) return R_BAD;      // mean / norm2: Real arrays only
+  if (!has_dim || R == 1) {
+    double v = 0;
+#define RED1(F) (has_dim ? (double)F(e, dim) : (double)F(e))
+    if constexpr (R == 1) {
+      switch (f) { case 0: v = RED1(sum); break; case 2: v = RED1(product); break; case 3: v = RED1(minval); break; case 4: v = RED1(maxval); break;
+        case 1: if constexpr (REAL) v = RED1(mean); break; case 5: if constexpr (REAL) v = RED1(norm2); break; }
+    } else {
+      switch (f) { case 0: v = (double)sum(e); break; case 2: v = (double)product(e); break; case 3: v = (double)minval(e); break;
+        case 4: v = (double)maxval(e); break; case 1: if constexpr (REAL) v = (double)mean(e); break; case 5: if constexpr (REAL) v = (double)norm2(e); break; }
+    }
+#undef RED1
+    c.out << "ok elem=" << num(v); return R_DONE;
+  }
+  if constexpr (R > 1) {
+    Array<R - 1, T, false> r;
+    switch (f) { case 0: r = sum(e, dim); break; case 2: r = product(e, dim); break; case 3: r = minval(e, dim); break; case 4: r = maxval(e, dim); break;
+      case 1: if constexpr (REAL) r = mean(e, dim); break; case 5: if constexpr (REAL) r = norm2(e, dim); break; }
+    show_view(c, r); return R_DONE;
+  }
+  return R_BAD;
+}
+template <class A> static int reduce_on(const Words& w, Ctx& c) {
+  bool has_dim = w[0] == "redd";
+  if (w.size() != (has_dim ? 6u : 5u) || (has_dim && !is_int(w[5]))) return R_BAD;
+  A* x = obj<A>(w[2]); A* y = obj<A>(w[4]); int op = binop(w[3]);
+  if (!x || !y || op < 0 || op == 1) return R_BAD;            // reductions of X+Y and X*Y
+  int dim = has_dim ? atoi(w[5].c_str()) : 0;
+  if (op == 0) return reduce_expr<A>(w[1], *x + *y, has_dim, dim, c);
+  return reduce_expr<A>(w[1], *x * *y, has_dim, dim, c);
+}
+template <class A> static int boolreduce_on(const Words& w, Ctx& c) {
+  static const int R = tr<A>::rank;
+  bool has_dim = w[0] == "redd";
+  if (w.size() != (has_dim ? 6u : 5u) || (has_dim && !is_int(w[5])) || w[3] != "gt") return R_BAD;
+  A* x = obj<A>(w[2]); A* y = obj<A>(w[4]);
+  if (!x || !y) return R_BAD;
+  int dim = has_dim ? atoi(w[5].c_str()) : 0;
+  int f = w[1] == "all" ? 0 : w[1] == "any" ? 1 : 2;
+  if (!has_dim) {
+    long v = f == 0 ? (long)all(*x > *y) : f == 1 ? (long)any(*x > *y) : (long)count(*x > *y);
+    c.out << "ok elem=" << v; return R_DONE;
+  }
+  if constexpr (R > 1) {
+    if (f == 2) { Array<R - 1, Index, false> r; r = count(*x > *y, dim); show_view(c, r); }
+    else { Array<R - 1, bool, false> r; if (f == 0) r = all(*x > *y, dim); else r = any(*x > *y, dim); show_view(c, r); }
+    return R_DONE;
+  }
+  return R_BAD;       // the library has no (bool vector, dim) form
+}
+static bool is_boolred(const std::string& s) { return s == "all" || s == "any" || s == "count"; }
+// red <fn> <i> <op> <j>     redd <fn> <i> <op> <j> <dim>
+int reduce_d_low(const Words& w, Ctx& c);         // part 2: Real arrays of rank 1, 2
+int reduce_d_high(const Words& w, Ctx& c);        // part 9: Real arrays of rank 3, 4
+#if PART(2)
+int reduce_d_low(const Words& w, Ctx& c) {
+  Entry& e = pool[L(w[2])];
+  return e.rank == 1 ? reduce_on<Vector>(w, c) : reduce_on<Matrix>(w, c);
+}
+int exec_reduce_d(const Words& w, Ctx& c) {
+  if (!(w[0] == "red" || w[0] == "redd") || w.size() < 5) return R_NOTMINE;
+  Entry& e = pool[L(w[2])];
+  if (e.kind != K_DBL || is_boolred(w[1])) return R_NOTMINE;
+  if (ent(w[4])) c.hs.push_back(L(w[4]));
+  return e.rank <= 2 ? reduce_d_low(w, c) : reduce_d_high(w, c);
+}
+#endif
+#if PART(9)
+int reduce_d_high(const Words& w, Ctx& c) {
+  Entry& e = pool[L(w[2])];
+  return e.rank == 3 ? reduce_on<Array<3, Real, false> >(w, c) : reduce_on<Array<4, Real, false> >(w, c);
+}
+#endif
+int reduce_bool(const Words& w, Ctx& c);          // part 10: all / any / count on Real and int arrays
+#if PART(3)
+int exec_reduce_i(const Words& w, Ctx& c) {
+  if (!(w[0] == "red" || w[0] == "redd") || w.size() < 5) return R_NOTMINE;
+  Entry& e = pool[L(w[2])];
+  if (!(e.kind == K_INT || (e.kind == K_DBL && is_boolred(w[1])))) return R_NOTMINE;
+  if (ent(w[4])) c.hs.push_back(L(w[4]));
+  int r = R_BAD;
+  if (is_boolred(w[1])) return reduce_bool(w, c);
+  withInt(e, [&](auto& A) { r = reduce_on<typename std::decay<decltype(A)>::type>(w, c); });
+  return r;
+}
+#endif
+#if PART(10)
+int reduce_bool(const Words& w, Ctx& c) {
+  int r = R_BAD;
+  withPassiveDyn(pool[L(w[2])], [&](auto& A) { r = boolreduce_on<typename std::decay<decltype(A)>::type>(w, c); });
+  return r;
+}
+#endif
+
+// =====================================================================================================================
+#if PART(4)
+template <class T> static int expand_on(const Words& w, Ctx& c) {
+  typedef Array<1, T, false> V; typedef Array<2, T, false> M; typedef Array<3, T, false> A3;
+  if (w[0] == "loc" && w.size() == 5) {                       // loc minloc|maxloc <i> <op> <j>
+    V* x = obj<V>(w[2]); V* y = obj<V>(w[4]); int op = binop(w[3]);
+    if (!x || !y || op < 0 || !(w[1] == "minloc" || w[1] == "maxloc")) return R_BAD;
+    c.hs.push_back(L(w[4]));
+    Index r;
+    if (w[1] == "minloc") r = op == 0 ? minloc(*x + *y) : op == 1 ? minloc(*x - *y) : minloc(*x * *y);
+    else r = op == 0 ? maxloc(*x + *y) : op == 1 ? maxloc(*x - *y) : maxloc(*x * *y);
+    c.out << "ok elem=" << r; return R_DONE;
+  }
+  if (w[0] == "find" && w.size() == 3) {                      // find <i> <j>: find(X > Y)
+    V* x = obj<V>(w[1]); V* y = obj<V>(w[2]);
+    if (!x || !y) return R_BAD;
+    c.hs.push_back(L(w[2]));
+    IntVector r; r = find(*x > *y);
+    show_view(c, r); return R_DONE;
+  }
+  if (w[0] == "dot" && w.size() == 3) {                       // dot <i> <j>
+    V* x = obj<V>(w[1]); V* y = obj<V>(w[2]);
+    if (!x || !y) return R_BAD;
+    c.hs.push_back(L(w[2]));
+    c.out << "ok elem=" << num((double)dot_product(*x, *y)); return R_DONE;
+  }
+  if (w[0] == "outer" && w.size() == 5) {                     // outer <k> <i> <j> <z>: T = outer_product(X + Y, Z)
+    M* t = obj<M>(w[1]); V* x = obj<V>(w[2]); V* y = obj<V>(w[3]); V* z = obj<V>(w[4]);
+    if (!t || !x || !y || !z) return R_BAD;
+    for (int q = 2; q < 5; ++q) c.hs.push_back(L(w[q]));
+    *t = outer_product(*x + *y, *z);
+    c.out << "ok"; return R_DONE;
+  }
+  if (w[0] == "spread" && w.size() == 6 && is_nat(w[2]) && is_int(w[5])) {   // spread <k> <D> <i> <j> <n>: T = spread<D>(X + Y, n)
+    int D = atoi(w[2].c_str()); Index n = atoi(w[5].c_str());
+    c.hs.push_back(L(w[3])); if (ent(w[4])) c.hs.push_back(L(w[4]));
+    if (M* t = obj<M>(w[1])) {
+      V* x = obj<V>(w[3]); V* y = obj<V>(w[4]);
+      if (!x || !y || D > 1) return R_BAD;
+      if (D == 0) *t = spread<0>(*x + *y, n); else *t = spread<1>(*x + *y, n);
+      c.out << "ok"; return R_DONE;
+    }
+    if (A3* t = obj<A3>(w[1])) {
+      M* x = obj<M>(w[3]); M* y = obj<M>(w[4]);
+      if (!x || !y || D > 2) return R_BAD;
+      if (D == 0) *t = spread<0>(*x + *y, n); else if (D == 1) *t = spread<1>(*x + *y, n); else *t = spread<2>(*x + *y, n);
+      c.out << "ok"; return R_DONE;
+    }
+    return R_BAD;
+  }
+  if (w[0] == "diagv" && w.size() == 4 && is_int(w[3])) {     // diagv <i> <j> <o>: diag_vector(X + Y, o)
+    M* x = obj<M>(w[1]); M* y = obj<M>(w[2]);
+    if (!x || !y) return R_BAD;
+    c.hs.push_back(L(w[2]));
+    V r; r = diag_vector(*x + *y, atoi(w[3].c_str()));
+    show_view(c, r); return R_DONE;
+  }
+  if (w[0] == "diagm" && w.size() == 3) {                     // diagm <i> <j>: diag_matrix(X + Y)
+    V* x = obj<V>(w[1]); V* y = obj<V>(w[2]);
+    if (!x || !y) return R_BAD;
+    c.hs.push_back(L(w[2]));
+    M r; r = diag_matrix(*x + *y);
+    show_view(c, r); return R_DONE;
+  }
+  return R_NOTMINE;
+}
+int exec_expand(const Words& w, Ctx& c) {
+  if (!(w[0] == "loc" || w[0] == "find" || w[0] == "dot" || w[0] == "outer" || w[0] == "spread" || w[0] == "diagv" || w[0] == "diagm"))
+    return R_NOTMINE;
+  Entry& e = pool[L(w[w[0] == "loc" ? 2 : 1])];
+  if (e.kind == K_DBL) { int r = expand_on<Real>(w, c); return r == R_NOTMINE ? R_BAD : r; }
+  if (e.kind == K_INT) { int r = expand_on<int>(w, c); return r == R_NOTMINE ? R_BAD : r; }
+  return R_NOTMINE;
+}
+#endif
+
+// =====================================================================================================================
+#if PART(5)
+// targets f / s / t with Real operands of the same rank; s+s, t+t into s / t / Matrix; Fix + Array into an Array
+template <class TA, class XA> static int special_asg(TA& t, const Words& w, Ctx& c) {
+  if (w[0] == "asg" && w.size() == 5) {
+    XA* x = obj<XA>(w[2]); XA* y = obj<XA>(w[4]); int op = binop(w[3]);
+    if (!x || !y || op < 0) return R_BAD;
+    c.hs.push_back(L(w[2])); c.hs.push_back(L(w[4]));
+    if (op == 0) t = *x + *y; else if (op == 1) t = *x - *y; else t = *x * *y;
+    c.out << "ok"; return R_DONE;
+  }
+  if ((w[0] == "cp" || w[0] == "cadd" || w[0] == "csub" || w[0] == "cmul") && w.size() == 3) {
+    XA* x = obj<XA>(w[2]);
+    if (!x) return R_BAD;
+    c.hs.push_back(L(w[2]));
+    if (w[0] == "cp") t = *x; else if (w[0] == "cadd") t += *x; else if (w[0] == "csub") t -= *x; else t *= *x;
+    c.out << "ok"; return R_DONE;
+  }
+  return R_BAD;
+}
+template <class TA, class XA> static int fixed_where(TA& t, const Words& w, Ctx& c) {
+  XA* m = obj<XA>(w[2]); XA* x = obj<XA>(w[3]);
+  if (!m || !x) return R_BAD;
+  c.hs.push_back(L(w[2])); c.hs.push_back(L(w[3]));
+  t.where(*m > 0.0) = *x;
+  c.out << "ok"; return R_DONE;
+}
+int exec_special(const Words& w, Ctx& c) {
+  Entry& ek = pool[L(w[1])];
+  bool ew = w[0] == "asg" || w[0] == "cp" || w[0] == "cadd" || w[0] == "csub" || w[0] == "cmul";
+  if (ew && w.size() >= 3) {
+    Entry* e2 = ent(w[2]);
+    if (!e2) return R_BAD;
+    if (ek.kind == K_FIX && e2->kind == K_DBL) {
+      if (ek.rank == 1) return special_asg<Fix1, Vector>(as<Fix1>(ek), w, c);
+      return special_asg<Fix2, Matrix>(as<Fix2>(ek), w, c);
+    }
+    if (ek.kind == K_SYM && e2->kind == K_DBL) return special_asg<SymmMatrix, Matrix>(as<SymmMatrix>(ek), w, c);
+    if (ek.kind == K_TRI && e2->kind == K_DBL) return special_asg<TridiagMatrix, Matrix>(as<TridiagMatrix>(ek), w, c);
+    if (ek.kind == K_SYM && e2->kind == K_SYM) return special_asg<SymmMatrix, SymmMatrix>(as<SymmMatrix>(ek), w, c);
+    if (ek.kind == K_TRI && e2->kind == K_TRI) return special_asg<TridiagMatrix, TridiagMatrix>(as<TridiagMatrix>(ek), w, c);
+    if (ek.kind == K_DBL && ek.rank == 2 && e2->kind == K_SYM && (w[0] == "asg" || w[0] == "cp")) return special_asg<Matrix, SymmMatrix>(as<Matrix>(ek), w, c);
+    if (ek.kind == K_DBL && ek.rank == 2 && e2->kind == K_TRI && (w[0] == "asg" || w[0] == "cp")) return special_asg<Matrix, TridiagMatrix>(as<Matrix>(ek), w, c);
+    if (ek.kind == K_DBL && e2->kind == K_FIX && w[0] == "asg" && w.size() == 5) {
+      // A = F op X: a FixedArray operand next to a dynamic one
+      int op = binop(w[3]);
+      if (op < 0) return R_BAD;
+      c.hs.push_back(L(w[2])); if (ent(w[4])) c.hs.push_back(L(w[4]));
+      if (ek.rank == 1) {
+        Fix1* f = obj<Fix1>(w[2]); Vector* y = obj<Vector>(w[4]); Vector& t = as<Vector>(ek);
+        if (!f || !y) return R_BAD;
+        if (op == 0) t = *f + *y; else if (op == 1) t = *f - *y; else t = *f * *y;
+      } else if (ek.rank == 2) {
+        Fix2* f = obj<Fix2>(w[2]); Matrix* y = obj<Matrix>(w[4]); Matrix& t = as<Matrix>(ek);
+        if (!f || !y) return R_BAD;
+        if (op == 0) t = *f + *y; else if (op == 1) t = *f - *y; else t = *f * *y;
+      } else return R_BAD;
+      c.out << "ok"; return R_DONE;
+    }
+    return R_NOTMINE;
+  }
+  if (w[0] == "where" && w.size() == 4 && ek.kind == K_FIX) {
+    if (ek.rank == 1) return fixed_where<Fix1, Vector>(as<Fix1>(ek), w, c);
+    return fixed_where<Fix2, Matrix>(as<Fix2>(ek), w, c);
+  }
+  if ((w[0] == "diag" || w[0] == "subdiag") && ek.kind == K_FIX && ek.rank == 2) {
+    Fix2& A = as<Fix2>(ek);
+    if (w[0] == "diag" && w.size() == 3) { Vector d(A.diag_vector(atoi(w[2].c_str()))); show_view(c, d); return R_DONE; }
+    if (w[0] == "subdiag" && w.size() == 4) { Matrix d(A.submatrix_on_diagonal(atoi(w[2].c_str()), atoi(w[3].c_str()))); show_view(c, d); return R_DONE; }
+    return R_BAD;
+  }
+  if (w[0] == "subdiag" && w.size() == 4 && (ek.kind == K_SYM || ek.kind == K_TRI)) {
+    Index a = atoi(w[2].c_str()), b = atoi(w[3].c_str());
+    if (ek.kind == K_SYM) { SymmMatrix d(as<SymmMatrix>(ek).submatrix_on_diagonal(a, b)); show_view(c, d); }
+    else { TridiagMatrix d(as<TridiagMatrix>(ek).submatrix_on_diagonal(a, b)); show_view(c, d); }
+    return R_DONE;
+  }
+  if (w[0] == "link" && w.size() == 3 && (ek.kind == K_SYM || ek.kind == K_TRI)) {
+    Entry* e2 = ent(w[2]);
+    if (!e2 || e2->kind != ek.kind) return R_BAD;
+    c.hs.push_back(L(w[2]));
+    if (ek.kind == K_SYM) { SymmMatrix& A = as<SymmMatrix>(ek); SymmMatrix& X = as<SymmMatrix>(*e2); A.link(X); if (&A != &X) { A.clear(); A = X; } }
+    else { TridiagMatrix& A = as<TridiagMatrix>(ek); TridiagMatrix& X = as<TridiagMatrix>(*e2); A.link(X); if (&A != &X) { A.clear(); A = X; } }
+    c.out << "ok"; return R_DONE;
+  }
+  return R_NOTMINE;
+}
+#endif
+
+// =====================================================================================================================
+#if PART(6)
+template <class A> static int active_on(const Words& w, Ctx& c) {
+  A& t = as<A>(pool[L(w[1])]);
+  if (w[0] == "asg" && w.size() == 5) {
+    A* x = obj<A>(w[2]); A* y = obj<A>(w[4]); int op = binop(w[3]);
+    if (!x || !y || op < 0) return R_BAD;
+    c.hs.push_back(L(w[2])); c.hs.push_back(L(w[4]));
+    bool was_empty = t.empty();
+    if (op == 0) t = *x + *y; else if (op == 1) t = *x - *y; else t = *x * *y;
+    if (was_empty) pool[L(w[1])].input = false;
+    c.out << "ok"; return R_DONE;
+  }
+  if ((w[0] == "cp" || w[0] == "cadd" || w[0] == "csub" || w[0] == "cmul") && w.size() == 3) {
+    A* x = obj<A>(w[2]);
+    if (!x) return R_BAD;
+    c.hs.push_back(L(w[2]));
+    bool was_empty = t.empty();
+    if (w[0] == "cp") t = *x; else if (w[0] == "cadd") t += *x; else if (w[0] == "csub") t -= *x; else t *= *x;
+    if (was_empty) pool[L(w[1])].input = false;
+    c.out << "ok"; return R_DONE;
+  }
+  if (w[0] == "where" && w.size() == 4) {            // mask: an active array of the same rank
+    A* m = obj<A>(w[2]); A* x = obj<A>(w[3]);
+    if (!m || !x) return R_BAD;
+    c.hs.push_back(L(w[2])); c.hs.push_back(L(w[3]));
+    t.where(*m > 0.0) = *x;
+    c.out << "ok"; return R_DONE;
+  }
+  if (w[0] == "reda" && w.size() == 6) {             // reda <k> <fn> <i> <op> <j>: T = fn(X op Y) (scalar assigned to every element)
+    int op = binop(w[4]);
+    const std::string& fn = w[2];
+    int f = fn == "sum" ? 0 : fn == "product" ? 2 : fn == "minval" ? 3 : fn == "maxval" ? 4 : fn == "mean" ? 1 : fn == "norm2" ? 5 : -1;
+    if (op < 0 || op == 1 || f < 0) return R_BAD;
+    Entry* ex = ent(w[3]); Entry* ey = ent(w[5]);
+    if (!ex || !ey || ex->kind != K_ACT || !same_kind(*ex, *ey)) return R_BAD;
+    c.hs.push_back(L(w[3])); c.hs.push_back(L(w[5]));
+    int r = R_BAD;
+    withAct(*ex, [&](auto& X) {
+      typedef typename std::decay<decltype(X)>::type XT;
+      XT& Y = as<XT>(*ey);
+      // mean and norm2 have non-integer derivatives: only their failure is inside the model
+      if ((f == 1 || f == 5) && same_dims(X, Y)) { r = R_UNMODELLED; return; }
+      aReal s;
+      // (the scalar is evaluated first, as in `t = sum(x + y)`; then it is assigned to every element)
+      if (op == 0) { switch (f) { case 0: s = sum(X + Y); break; case 1: s = mean(X + Y); break; case 2: s = product(X + Y); break;
+                       case 3: s = minval(X + Y); break; case 4: s = maxval(X + Y); break; default: s = norm2(X + Y); } }
+      else { switch (f) { case 0: s = sum(X * Y); break; case 1: s = mean(X * Y); break; case 2: s = product(X * Y); break;
+                       case 3: s = minval(X * Y); break; case 4: s = maxval(X * Y); break; default: s = norm2(X * Y); } }
+      rebase(c);
+      t = s;
+      r = R_DONE;
+    });
+    if (r == R_DONE) c.out << "ok";
+    return r;
+  }
+  if (w[0] == "redda" && w.size() == 7 && is_int(w[6])) {     // redda <k> <fn> <i> <op> <j> <dim>: T = fn(X op Y, dim); X, Y matrices, T a vector
+    if constexpr (tr<A>::rank == 1) {
+      int op = binop(w[4]); int dim = atoi(w[6].c_str());
+      const std::string& fn = w[2];
+      int f = fn == "sum" ? 0 : fn == "product" ? 2 : fn == "minval" ? 3 : fn == "maxval" ? 4 : -1;
+      aMatrix* X = obj<aMatrix>(w[3]); aMatrix* Y = obj<aMatrix>(w[5]);
+      if (op != 0 || f < 0 || !X || !Y) return R_BAD;
+      c.hs.push_back(L(w[3])); c.hs.push_back(L(w[5]));
+      aVector tmp;
+      switch (f) { case 0: tmp = sum(*X + *Y, dim); break; case 2: tmp = product(*X + *Y, dim); break;
+                   case 3: tmp = minval(*X + *Y, dim); break; default: tmp = maxval(*X + *Y, dim); }
+      rebase(c);
+      t = std::move(tmp);                 // may swap storage (and gradient indices) with the temporary
+      pool[L(w[1])].input = false;
+      c.out << "ok"; return R_DONE;
+    }
+    return R_BAD;
+  }
+  if (w[0] == "diagva" && w.size() == 5 && is_int(w[4])) {    // diagva <k> <i> <j> <o>: T = diag_vector(X + Y, o)
+    if constexpr (tr<A>::rank == 1) {
+      aMatrix* X = obj<aMatrix>(w[2]); aMatrix* Y = obj<aMatrix>(w[3]);
+      if (!X || !Y) return R_BAD;
+      c.hs.push_back(L(w[2])); c.hs.push_back(L(w[3]));
+      aVector tmp; tmp = diag_vector(*X + *Y, atoi(w[4].c_str()));
+      rebase(c);
+      t = std::move(tmp);                 // may swap storage (and gradient indices) with the temporary
+      pool[L(w[1])].input = false;
+      c.out << "ok"; return R_DONE;
+    }
+    return R_BAD;
+  }
+  return R_NOTMINE;
+}
+int exec_active(const Words& w, Ctx& c) {
+  Entry& ek = pool[L(w[1])];
+  if (ek.kind != K_ACT) return R_NOTMINE;
+  if (w[0] == "jac" && w.size() == 3) {              // jac <k> <i>: d(elements of K) / d(initial values of the input array I)
+    Entry* ei = ent(w[2]);
+    if (!ei || ei->kind != K_ACT) return R_BAD;
+    c.hs.push_back(L(w[2]));
+    bool unm = !ei->input;
+    withAct(ek, [&](auto& K) { if (K.empty()) unm = true; });
+    withAct(*ei, [&](auto& I) { if (I.empty()) unm = true; });
+    if (unm) return R_UNMODELLED;
+    g_stack->clear_independents(); g_stack->clear_dependents();
+    withAct(*ei, [&](auto& I) { g_stack->independent(I); });
+    withAct(ek, [&](auto& K) { g_stack->dependent(K); });
+    Matrix J; J >>= g_stack->jacobian();
+    show_view(c, J);
+    return R_DONE;
+  }
+  int r = R_NOTMINE;
+  withAct(ek, [&](auto& A) { r = active_on<typename std::decay<decltype(A)>::type>(w, c); });
+  return r;
+}
+#endif
+
+// =====================================================================================================================
+#if PART(7)
+template <class A> struct rank_of { static const int value = tr<A>::rank; };
 struct Item { bool scalar; long v; long h; };
-
 template <class Alloc, class T>
-static void feed_rest(Alloc& al, const std::vector<Item>& items, size_t from, int target_rank) {
+static void feed_rest(Alloc& al, const std::vector<Item>& items, size_t from) {
   for (size_t t = from; t < items.size(); ++t) {
     if (items[t].scalar) al << (T)items[t].v;
-    else with(pool[items[t].h], [&](auto& X) {
+    else withPassiveDyn(pool[items[t].h], [&](auto& X) {
       typedef typename std::decay<decltype(X)>::type XT;
       if constexpr (rank_of<XT>::value <= Alloc::target_rank) al << X;
     });
   }
 }
-
 template <int R, class A> struct AllocTag : public internal::Allocator<R, A> {
   static const int target_rank = R;
   AllocTag(const internal::Allocator<R, A>& a) : internal::Allocator<R, A>(a) {}
 };
-
 template <class A>
 static void do_fill(A& arr, const std::vector<Item>& items) {
-  typedef typename elem_of<A>::type T;
+  typedef typename tr<A>::elem T;
   static const int R = rank_of<A>::value;
   if (items[0].scalar) {
     AllocTag<R, A> al(arr << (T)items[0].v);
-    feed_rest<AllocTag<R, A>, T>(al, items, 1, R);
+    feed_rest<AllocTag<R, A>, T>(al, items, 1);
   } else {
-    with(pool[items[0].h], [&](auto& X) {
+    withPassiveDyn(pool[items[0].h], [&](auto& X) {
       typedef typename std::decay<decltype(X)>::type XT;
       if constexpr (rank_of<XT>::value <= R) {
         AllocTag<R, A> al(arr << X);
-        feed_rest<AllocTag<R, A>, T>(al, items, 1, R);
+        feed_rest<AllocTag<R, A>, T>(al, items, 1);
       }
     });
   }
 }
-
-template <class T> static bool signed_perm(const Array<2, T, false>& a) {
+static bool signed_perm(const Matrix& a) {
   Index n = a.dimension(0);
   for (Index i = 0; i < n; ++i) {
     int nr = 0, nc = 0;
@@ -158,229 +731,304 @@ template <class T> static bool signed_perm(const Array<2, T, false>& a) {
   }
   return true;
 }
+int exec_fill(const Words& w, Ctx& c) {
+  Entry& ek = pool[L(w[1])];
+  if (w[0] == "fill" && w.size() >= 3) {
+    if (!(ek.kind == K_INT || ek.kind == K_DBL) || ek.rank > 2) return R_BAD;
+    std::vector<Item> items;
+    for (size_t t = 2; t < w.size(); ++t) {
+      Item it;
+      if (w[t][0] == 'a') {
+        it.scalar = false; it.v = 0; it.h = L(w[t].substr(1));
+        if (!pool.count(it.h) || pool[it.h].rank > ek.rank || !(pool[it.h].kind == K_INT || pool[it.h].kind == K_DBL)) return R_BAD;
+        c.hs.push_back(it.h);
+      } else { it.scalar = true; it.v = L(w[t]); it.h = -1; }
+      items.push_back(it);
+    }
+    withPassiveDyn(ek, [&](auto& A) {
+      typedef typename std::decay<decltype(A)>::type AT;
+      if constexpr (tr<AT>::rank <= 2) do_fill(A, items);
+    });
+    c.out << "ok"; return R_DONE;
+  }
+  if (w[0] == "inv" && w.size() == 2) {
+    Matrix* A = obj<Matrix>(w[1]);
+    if (!A) return R_BAD;
+    if (A->dimension(0) == A->dimension(1) && (A->empty() || !signed_perm(*A))) return R_UNMODELLED;
+    Matrix B = inv(*A);
+    show_view(c, B); return R_DONE;
+  }
+  if (w[0] == "solve" && w.size() == 3) {            // solve <A> <b>: solve(A, b), b a vector or a matrix
+    Matrix* A = obj<Matrix>(w[1]);
+    Entry* eb = ent(w[2]);
+    if (!A || !eb || eb->kind != K_DBL || eb->rank > 2) return R_BAD;
+    c.hs.push_back(L(w[2]));
+    Index nb = eb->rank == 1 ? as<Vector>(*eb).dimension(0) : as<Matrix>(*eb).dimension(0);
+    if (A->dimension(0) == A->dimension(1) && A->dimension(0) == nb && (A->empty() || !signed_perm(*A))) return R_UNMODELLED;
+    if (eb->rank == 1) { Vector x = solve(*A, as<Vector>(*eb)); show_view(c, x); }
+    else { Matrix x = solve(*A, as<Matrix>(*eb)); show_view(c, x); }
+    return R_DONE;
+  }
+  if (w[0] == "matmul" && w.size() == 4) {
+    Entry* ei = ent(w[2]); Entry* ej = ent(w[3]);
+    if (!ei || !ej) return R_BAD;
+    if (!(ek.kind == K_DBL && ei->kind == K_DBL && ej->kind == K_DBL && ei->rank <= 2 && ej->rank <= 2 && ei->rank + ej->rank > 2 &&
+          ek.rank + 2 == ei->rank + ej->rank)) return R_BAD;
+    c.hs.push_back(L(w[2])); c.hs.push_back(L(w[3]));
+    if (ei->rank == 2 && ej->rank == 1) as<Vector>(ek) = matmul(as<Matrix>(*ei), as<Vector>(*ej));
+    else if (ei->rank == 2 && ej->rank == 2) as<Matrix>(ek) = matmul(as<Matrix>(*ei), as<Matrix>(*ej));
+    else as<Vector>(ek) = matmul(as<Vector>(*ei), as<Matrix>(*ej));
+    c.out << "ok"; return R_DONE;
+  }
+  return R_NOTMINE;
+}
+#endif
 
+// =====================================================================================================================
+#if PART(0)
 static void cleanup() {
-  for (std::map<long, Entry>::iterator it = pool.begin(); it != pool.end(); ++it) it->second.destroy();
+  for (std::map<long, Entry>::iterator it = pool.begin(); it != pool.end(); ++it) destroy(it->second);
   pool.clear();
 }
 
-#ifdef ADEPT_BOUNDS_CHECKING
-static const bool BOUNDS = true;
-#else
-static const bool BOUNDS = false;
-#endif
+template <int R, class T, bool Act> static Array<R, T, Act>* make_array(const Index* d) {
+  typedef Array<R, T, Act> A;
+  bool dflt = true; for (int q = 0; q < R; ++q) if (d[q] != 0) dflt = false;
+  // all extents zero: the default constructor (the usual way to make an empty array; it leaves offset_ unset)
+  if (dflt) return new A();
+  if constexpr (R == 1) return new A(d[0]);
+  else if constexpr (R == 2) return new A(d[0], d[1]);
+  else if constexpr (R == 3) return new A(d[0], d[1], d[2]);
+  else return new A(d[0], d[1], d[2], d[3]);
+}
+template <class A> static void do_resize(A& a, const std::string& form, const Index* d) {
+  static const int R = tr<A>::rank;
+  ExpressionSize<R> ds; for (int q = 0; q < R; ++q) ds[q] = d[q];
+  if (form == "resize") {
+    if constexpr (R == 1) a.resize(d[0]); else if constexpr (R == 2) a.resize(d[0], d[1]);
+    else if constexpr (R == 3) a.resize(d[0], d[1], d[2]); else a.resize(d[0], d[1], d[2], d[3]);
+  }
+  else if (form == "resized") a.resize(ds);
+  else if (form == "resizerm") a.resize_row_major(ds);
+  else a.resize_column_major(ds);
+}
+
+// operations on single objects; returns as the exec_* functions
+static int exec_basic(const Words& w, Ctx& c) {
+  long k = L(w[1]);
+  Entry& ek = pool[k];
+  bool resz = w[0] == "resize" || w[0] == "resized" || w[0] == "resizerm" || w[0] == "resizecm";
+  if (resz && w.size() >= 4) {
+    long seed = L(w[2]);
+    int nd = (int)w.size() - 3;
+    Index d[4] = {0, 0, 0, 0}; for (int q = 0; q < nd && q < 4; ++q) d[q] = atoi(w[3 + q].c_str());
+    if (ek.kind == K_SYM || ek.kind == K_TRI) {
+      if (w[0] != "resize" || nd > 2) return R_BAD;
+      withOther(ek, [&](auto& A) {
+        typedef typename std::decay<decltype(A)>::type AT;
+        if constexpr (tr<AT>::kind == K_SYM || tr<AT>::kind == K_TRI) { if (nd == 1) A.resize(d[0]); else A.resize(d[0], d[1]); fill_pattern(A, seed); }
+      });
+      c.out << "ok"; return R_DONE;
+    }
+    if (ek.kind == K_FIX || nd != ek.rank) return R_BAD;
+    bool ok = withPassiveDyn(ek, [&](auto& A) { do_resize(A, w[0], d); fill_pattern(A, seed); }) ||
+              withAct(ek, [&](auto& A) { do_resize(A, w[0], d); ek.input = false; fill_pattern(A, seed); });
+    if (!ok) return R_BAD;
+    c.out << "ok"; return R_DONE;
+  }
+  if (w[0] == "clear" && w.size() == 2) {
+    if (ek.kind == K_FIX) return R_BAD;
+    withAny(ek, [&](auto& A) { typedef typename std::decay<decltype(A)>::type AT; if constexpr (tr<AT>::kind != K_FIX) A.clear(); });
+    ek.input = false;
+    c.out << "ok"; return R_DONE;
+  }
+  if (w[0] == "link" && w.size() == 3 && (ek.kind == K_INT || ek.kind == K_DBL)) {
+    Entry* ei = ent(w[2]);
+    if (!ei || !same_kind(ek, *ei)) return R_BAD;
+    c.hs.push_back(L(w[2]));
+    withPassiveDyn(ek, [&](auto& A) {
+      typedef typename std::decay<decltype(A)>::type AT;
+      AT& X = as<AT>(*ei);
+      A.link(X);
+      // detach again (deep copy), the pool holds no shared data; sharing is C07's business
+      if (&A != &X) { A.clear(); A = X; }
+    });
+    c.out << "ok"; return R_DONE;
+  }
+  if (w[0] == "diag" && w.size() == 3 && ek.rank == 2 && (ek.kind == K_INT || ek.kind == K_DBL)) {
+    Index o = atoi(w[2].c_str());
+    withPassiveDyn(ek, [&](auto& A) {
+      typedef typename std::decay<decltype(A)>::type AT;
+      if constexpr (tr<AT>::rank == 2) { Array<1, typename tr<AT>::elem, false> d(A.diag_vector(o)); show_view(c, d); }
+    });
+    return R_DONE;
+  }
+  if (w[0] == "subdiag" && w.size() == 4 && ek.rank == 2 && (ek.kind == K_INT || ek.kind == K_DBL)) {
+    Index a = atoi(w[2].c_str()), b = atoi(w[3].c_str());
+    withPassiveDyn(ek, [&](auto& A) {
+      typedef typename std::decay<decltype(A)>::type AT;
+      if constexpr (tr<AT>::rank == 2) { AT d(A.submatrix_on_diagonal(a, b)); show_view(c, d); }
+    });
+    return R_DONE;
+  }
+  if (w[0] == "permute" && w.size() == 4 && ek.rank == 2 && (ek.kind == K_INT || ek.kind == K_DBL)) {
+    Index a = atoi(w[2].c_str()), b = atoi(w[3].c_str());
+    withPassiveDyn(ek, [&](auto& A) {
+      typedef typename std::decay<decltype(A)>::type AT;
+      if constexpr (tr<AT>::rank == 2) { AT d(A.permute(a, b)); show_view(c, d); }
+    });
+    return R_DONE;
+  }
+  if (w[0] == "get" && (int)w.size() == 2 + ek.rank && (ek.kind == K_INT || ek.kind == K_DBL)) {
+    Index ix[4] = {0, 0, 0, 0}; for (int q = 0; q < ek.rank; ++q) ix[q] = atoi(w[2 + q].c_str());
+    bool unm = false;
+    withPassiveDyn(ek, [&](auto& A) {
+      typedef typename std::decay<decltype(A)>::type AT;
+      static const int R = tr<AT>::rank;
+      bool in = true; for (int q = 0; q < R; ++q) in = in && ix[q] >= 0 && ix[q] < A.dimension(q);
+      if (!in && !BOUNDS) { unm = true; return; }
+      double v;
+      if constexpr (R == 1) v = (double)A(ix[0]); else if constexpr (R == 2) v = (double)A(ix[0], ix[1]);
+      else if constexpr (R == 3) v = (double)A(ix[0], ix[1], ix[2]); else v = (double)A(ix[0], ix[1], ix[2], ix[3]);
+      c.out << "ok elem=" << num(v);
+    });
+    return unm ? R_UNMODELLED : R_DONE;
+  }
+  if (w[0] == "range" && w.size() == 4 && ek.rank == 1 && (ek.kind == K_INT || ek.kind == K_DBL)) {
+    Index a = atoi(w[2].c_str()), b = atoi(w[3].c_str());
+    bool unm = false;
+    withPassiveDyn(ek, [&](auto& A) {
+      typedef typename std::decay<decltype(A)>::type AT;
+      if constexpr (tr<AT>::rank == 1) {
+        Index n = A.dimension(0);
+        if (!(a >= 0 && a < n && b >= 0 && b < n) && !BOUNDS) { unm = true; return; }
+        AT d(A(range(a, b)));
+        show_view(c, d);
+      }
+    });
+    return unm ? R_UNMODELLED : R_DONE;
+  }
+  if (w[0] == "reshape" && w.size() == 4 && ek.rank == 1 && (ek.kind == K_INT || ek.kind == K_DBL)) {
+    Index a = atoi(w[2].c_str()), b = atoi(w[3].c_str());
+    withPassiveDyn(ek, [&](auto& A) {
+      typedef typename std::decay<decltype(A)>::type AT;
+      if constexpr (tr<AT>::rank == 1) { Array<2, typename tr<AT>::elem, false> d(A.reshape(a, b)); show_view(c, d); }
+    });
+    return R_DONE;
+  }
+  return R_NOTMINE;
+}
+
+static int exec_new(const Words& w, Ctx& c) {
+  long k = L(w[1]), seed = L(w[3]);
+  int nd = (int)w.size() - 4;
+  c.hs.push_back(k);
+  Index d[4] = {0, 0, 0, 0}; for (int q = 0; q < nd && q < 4; ++q) d[q] = atoi(w[4 + q].c_str());
+  Entry e;
+  const std::string& ty = w[2];
+  if (ty == "d" || ty == "i") {
+    if (nd < 1 || nd > 4) return R_BAD;
+    e.kind = ty == "d" ? K_DBL : K_INT; e.rank = nd;
+    if (ty == "d") e.p = nd == 1 ? (void*)make_array<1, Real, false>(d) : nd == 2 ? (void*)make_array<2, Real, false>(d) :
+                         nd == 3 ? (void*)make_array<3, Real, false>(d) : (void*)make_array<4, Real, false>(d);
+    else e.p = nd == 1 ? (void*)make_array<1, int, false>(d) : nd == 2 ? (void*)make_array<2, int, false>(d) :
+               nd == 3 ? (void*)make_array<3, int, false>(d) : (void*)make_array<4, int, false>(d);
+  } else if (ty == "a") {
+    if (nd < 1 || nd > 2) return R_BAD;
+    e.kind = K_ACT; e.rank = nd;
+    e.p = nd == 1 ? (void*)make_array<1, Real, true>(d) : (void*)make_array<2, Real, true>(d);
+  } else if (ty == "f") {
+    e.kind = K_FIX; e.rank = nd;
+    if (nd == 1 && d[0] == 3) e.p = new Fix1();
+    else if (nd == 2 && d[0] == 2 && d[1] == 3) e.p = new Fix2();
+    else return R_BAD;
+  } else if (ty == "s" || ty == "t") {
+    if (nd < 1 || nd > 2) return R_BAD;
+    e.kind = ty == "s" ? K_SYM : K_TRI; e.rank = 2;
+    if (ty == "s") e.p = nd == 1 ? (d[0] == 0 ? new SymmMatrix() : new SymmMatrix(d[0])) : new SymmMatrix(d[0], d[1]);
+    else e.p = nd == 1 ? (d[0] == 0 ? new TridiagMatrix() : new TridiagMatrix(d[0])) : new TridiagMatrix(d[0], d[1]);
+  } else return R_BAD;
+  // the old object dies before the new one is filled (an active one frees its gradient indices first)
+  Entry old; bool had = pool.count(k) != 0; if (had) old = pool[k];
+  pool[k] = e;
+  if (had) destroy(old);
+  withAny(pool[k], [&](auto& A) { fill_pattern(A, seed); });
+  c.out << "ok"; return R_DONE;
+}
 
 int main() {
   std::string line;
+  g_stack = new verif::SpyStack();
   while (std::getline(std::cin, line)) {
-    std::vector<std::string> w = verif::words(line);
+    Words w = verif::words(line);
     if (w.empty()) continue;
-    std::vector<long> hs;      // handles shown after the op
-    std::ostringstream out;    // "ok…" part
-    bool numeric_ok = true;
-    for (size_t i = 1; i < w.size(); ++i) {
-      const std::string& s = w[i];
-      bool ok = is_int(s) || (w[0] == "new" && i == 2 && (s == "d" || s == "i")) ||
-                ((w[0] == "asg") && i == 3 && (s == "add" || s == "sub" || s == "mul")) ||
-                (w[0] == "fill" && i >= 2 && s.size() > 1 && s[0] == 'a' && is_nat(s.substr(1)));
-      if (!ok) numeric_ok = false;
-    }
-    if (!numeric_ok) { std::cout << "bad-op\n"; continue; }
+    Ctx c;
     try {
       if (w[0] == "cfg" && w.size() == 2 && is_nat(w[1])) {
         cleanup(); set_array_row_major_order(true);
-        std::cout << (((atol(w[1].c_str()) != 0) == BOUNDS) ? "cfg" : "cfg-mismatch") << "\n";
+        g_stack->new_recording();
+        std::cout << (((L(w[1]) != 0) == BOUNDS) ? "cfg" : "cfg-mismatch") << "\n";
         continue;
       }
-      if (w[0] == "order" && w.size() == 2) { set_array_row_major_order(atol(w[1].c_str()) != 0); std::cout << "ok\n"; continue; }
-      // ---------------------------------------------------------------- creation
-      if (w[0] == "new" && (w.size() == 5 || w.size() == 6) && is_nat(w[1])) {
-        long k = atol(w[1].c_str()), seed = atol(w[3].c_str());
-        hs.push_back(k);
-        Entry e; e.ty = (w[2] == "d"); e.rank = (int)w.size() - 4;
-        Index d0 = atoi(w[4].c_str()), d1 = e.rank == 2 ? atoi(w[5].c_str()) : 0;
-        // all extents zero: the default constructor (the usual way to make an empty array; it leaves offset_ unset)
-        bool dflt = d0 == 0 && d1 == 0;
-        if (e.ty && e.rank == 1) e.dv = dflt ? new Vector() : new Vector(d0);
-        else if (e.ty) e.dm = dflt ? new Matrix() : new Matrix(d0, d1);
-        else if (e.rank == 1) e.iv = dflt ? new intVector() : new intVector(d0);
-        else e.im = dflt ? new intMatrix() : new intMatrix(d0, d1);
-        with(e, [&](auto& A) { fill_pattern(A, seed); });
-        if (pool.count(k)) pool[k].destroy();
-        pool[k] = e;
-        std::cout << "ok" << involved(hs) << "\n";
-        continue;
+      if (w[0] == "order" && w.size() == 2 && is_nat(w[1])) { set_array_row_major_order(L(w[1]) != 0); std::cout << "ok\n"; continue; }
+      if (w[0] == "rec" && w.size() == 1) {           // new_recording: every active array of the pool becomes an input
+        g_stack->new_recording();
+        for (std::map<long, Entry>::iterator it = pool.begin(); it != pool.end(); ++it) it->second.input = it->second.kind == K_ACT;
+        std::cout << "ok\n"; continue;
       }
-      // every other op starts with an existing handle
-      if (w.size() < 2 || !is_nat(w[1]) || !pool.count(atol(w[1].c_str()))) { std::cout << "bad-op\n"; continue; }
-      long k = atol(w[1].c_str());
-      Entry& ek = pool[k];
-      hs.push_back(k);
-      if ((w[0] == "resize" || w[0] == "resized" || w[0] == "resizerm" || w[0] == "resizecm") && (int)w.size() == 3 + ek.rank) {
-        long seed = atol(w[2].c_str());
-        Index d0 = atoi(w[3].c_str()), d1 = ek.rank == 2 ? atoi(w[4].c_str()) : 0;
-        with(ek, [&](auto& A) {
-          typedef typename std::decay<decltype(A)>::type AT;
-          if constexpr (rank_of<AT>::value == 1) {
-            if (w[0] == "resize") A.resize(d0);
-            else if (w[0] == "resized") A.resize(dimensions(d0));
-            else if (w[0] == "resizerm") A.resize_row_major(dimensions(d0));
-            else A.resize_column_major(dimensions(d0));
-          } else {
-            if (w[0] == "resize") A.resize(d0, d1);
-            else if (w[0] == "resized") A.resize(dimensions(d0, d1));
-            else if (w[0] == "resizerm") A.resize_row_major(dimensions(d0, d1));
-            else A.resize_column_major(dimensions(d0, d1));
-          }
-          fill_pattern(A, seed);
-        });
-        out << "ok";
-      } else if (w[0] == "asg" && w.size() == 5 && is_nat(w[2]) && is_nat(w[4])) {
-        long i = atol(w[2].c_str()), j = atol(w[4].c_str());
-        if (!pool.count(i) || !pool.count(j) || !same_kind(ek, pool[i]) || !same_kind(ek, pool[j])) { std::cout << "bad-op\n"; continue; }
-        hs.push_back(i); hs.push_back(j);
-        with(ek, [&](auto& A) {
-          typedef typename std::decay<decltype(A)>::type AT;
-          AT* X = 0; AT* Y = 0;
-          with(pool[i], [&](auto& x) { if constexpr (std::is_same<typename std::decay<decltype(x)>::type, AT>::value) X = &x; });
-          with(pool[j], [&](auto& y) { if constexpr (std::is_same<typename std::decay<decltype(y)>::type, AT>::value) Y = &y; });
-          if (w[3] == "add") A = *X + *Y; else if (w[3] == "sub") A = *X - *Y; else A = *X * *Y;
-        });
-        out << "ok";
-      } else if ((w[0] == "cp" || w[0] == "cadd" || w[0] == "csub" || w[0] == "cmul" || w[0] == "link") && w.size() == 3 && is_nat(w[2])) {
-        long i = atol(w[2].c_str());
-        if (!pool.count(i) || !same_kind(ek, pool[i])) { std::cout << "bad-op\n"; continue; }
-        hs.push_back(i);
-        with(ek, [&](auto& A) {
-          typedef typename std::decay<decltype(A)>::type AT;
-          AT* X = 0;
-          with(pool[i], [&](auto& x) { if constexpr (std::is_same<typename std::decay<decltype(x)>::type, AT>::value) X = &x; });
-          if (w[0] == "cp") A = *X;
-          else if (w[0] == "cadd") A += *X;
-          else if (w[0] == "csub") A -= *X;
-          else if (w[0] == "cmul") A *= *X;
-          else {
-            A.link(*X);
-            // detach again (deep copy), the pool holds no shared data; sharing is C07's business
-            if (&A != X) { A.clear(); A = *X; }
-          }
-        });
-        out << "ok";
-      } else if (w[0] == "where" && w.size() == 4 && is_nat(w[2]) && is_nat(w[3])) {
-        long m = atol(w[2].c_str()), i = atol(w[3].c_str());
-        if (!pool.count(m) || !pool.count(i) || !same_kind(ek, pool[i]) || pool[m].rank != ek.rank) { std::cout << "bad-op\n"; continue; }
-        hs.push_back(m); hs.push_back(i);
-        with(ek, [&](auto& A) {
-          typedef typename std::decay<decltype(A)>::type AT;
-          AT* X = 0;
-          with(pool[i], [&](auto& x) { if constexpr (std::is_same<typename std::decay<decltype(x)>::type, AT>::value) X = &x; });
-          with(pool[m], [&](auto& M) {
-            typedef typename std::decay<decltype(M)>::type MT;
-            if constexpr (rank_of<MT>::value == rank_of<AT>::value) {
-              typedef typename elem_of<MT>::type ME;
-              A.where(M > (ME)0) = *X;
-            }
-          });
-        });
-        out << "ok";
-      } else if (w[0] == "fill" && w.size() >= 3) {
-        std::vector<Item> items; bool bad = false;
-        for (size_t t = 2; t < w.size(); ++t) {
-          Item it;
-          if (w[t][0] == 'a') {
-            it.scalar = false; it.v = 0; it.h = atol(w[t].c_str() + 1);
-            if (!pool.count(it.h) || pool[it.h].rank > ek.rank) bad = true; else hs.push_back(it.h);
-          } else { it.scalar = true; it.v = atol(w[t].c_str()); it.h = -1; }
-          items.push_back(it);
+      rebase(c);
+      int r = R_NOTMINE;
+      if (w[0] == "new") {
+        if (!((w.size() >= 5 && w.size() <= 8) && is_nat(w[1]) && is_int(w[3]))) { std::cout << "bad-op\n"; continue; }
+        bool okd = true; for (size_t q = 4; q < w.size(); ++q) okd = okd && is_int(w[q]);
+        if (!okd) { std::cout << "bad-op\n"; continue; }
+        r = exec_new(w, c);
+      } else {
+        // every other op starts with an existing handle; all further words are integers, a<handle> items or keywords
+        // (red / redd / loc name the function first)
+        bool fn_first = w[0] == "red" || w[0] == "redd" || w[0] == "loc";
+        size_t hp = fn_first ? 2 : 1;
+        if (w.size() < hp + 1 || !is_nat(w[hp]) || !pool.count(L(w[hp]))) { std::cout << "bad-op\n"; continue; }
+        c.hs.push_back(L(w[hp]));
+        if (fn_first) {
+          r = exec_reduce_d(w, c);
+          if (r == R_NOTMINE) r = exec_reduce_i(w, c);
+          if (r == R_NOTMINE) r = exec_expand(w, c);
+        } else {
+          r = exec_basic(w, c);
+          if (r == R_NOTMINE) r = exec_fill(w, c);
+          if (r == R_NOTMINE) r = exec_elementwise(w, c);
+          if (r == R_NOTMINE) r = exec_special(w, c);
+          if (r == R_NOTMINE) r = exec_expand(w, c);
+          if (r == R_NOTMINE) r = exec_active(w, c);
         }
-        if (bad) { std::cout << "bad-op\n"; continue; }
-        with(ek, [&](auto& A) { do_fill(A, items); });
-        out << "ok";
-      } else if (w[0] == "diag" && w.size() == 3 && ek.rank == 2) {
-        Index o = atoi(w[2].c_str());
-        with(ek, [&](auto& A) {
-          typedef typename std::decay<decltype(A)>::type AT;
-          if constexpr (rank_of<AT>::value == 2) {
-            Array<1, typename elem_of<AT>::type, false> d(A.diag_vector(o));
-            out << "ok view"; show1(out, d);
-          }
-        });
-      } else if (w[0] == "subdiag" && w.size() == 4 && ek.rank == 2) {
-        Index a = atoi(w[2].c_str()), b = atoi(w[3].c_str());
-        with(ek, [&](auto& A) {
-          typedef typename std::decay<decltype(A)>::type AT;
-          if constexpr (rank_of<AT>::value == 2) {
-            AT d(A.submatrix_on_diagonal(a, b));
-            out << "ok view"; show2(out, d);
-          }
-        });
-      } else if (w[0] == "inv" && w.size() == 2 && ek.rank == 2 && ek.ty == 1) {
-        Matrix& A = *ek.dm;
-        if (A.dimension(0) == A.dimension(1) && (A.empty() || !signed_perm(A))) { std::cout << "unmodelled\n"; continue; }
-        Matrix B = inv(A);
-        out << "ok view"; show2(out, B);
-      } else if (w[0] == "matmul" && w.size() == 4 && is_nat(w[2]) && is_nat(w[3])) {
-        long i = atol(w[2].c_str()), j = atol(w[3].c_str());
-        if (!pool.count(i) || !pool.count(j)) { std::cout << "bad-op\n"; continue; }
-        Entry& ei = pool[i]; Entry& ej = pool[j];
-        if (!(ek.ty && ei.ty && ej.ty && ei.rank + ej.rank > 2 && ek.rank + 2 == ei.rank + ej.rank)) { std::cout << "bad-op\n"; continue; }
-        hs.push_back(i); hs.push_back(j);
-        if (ei.rank == 2 && ej.rank == 1) *ek.dv = matmul(*ei.dm, *ej.dv);
-        else if (ei.rank == 2 && ej.rank == 2) *ek.dm = matmul(*ei.dm, *ej.dm);
-        else *ek.dv = matmul(*ei.dv, *ej.dm);
-        out << "ok";
-      } else if (w[0] == "permute" && w.size() == 4 && ek.rank == 2) {
-        Index a = atoi(w[2].c_str()), b = atoi(w[3].c_str());
-        with(ek, [&](auto& A) {
-          typedef typename std::decay<decltype(A)>::type AT;
-          if constexpr (rank_of<AT>::value == 2) {
-            AT d(A.permute(a, b));
-            out << "ok view"; show2(out, d);
-          }
-        });
-      } else if (w[0] == "get" && (int)w.size() == 2 + ek.rank) {
-        Index a = atoi(w[2].c_str()), b = ek.rank == 2 ? atoi(w[3].c_str()) : 0;
-        bool unm = false;
-        with(ek, [&](auto& A) {
-          typedef typename std::decay<decltype(A)>::type AT;
-          bool in = a >= 0 && a < A.dimension(0);
-          if constexpr (rank_of<AT>::value == 2) in = in && b >= 0 && b < A.dimension(1);
-          if (!in && !BOUNDS) { unm = true; return; }
-          if constexpr (rank_of<AT>::value == 1) out << "ok elem=" << num((double)A(a));
-          else out << "ok elem=" << num((double)A(a, b));
-        });
-        if (unm) { std::cout << "unmodelled\n"; continue; }
-      } else if (w[0] == "range" && w.size() == 4 && ek.rank == 1) {
-        Index a = atoi(w[2].c_str()), b = atoi(w[3].c_str());
-        bool unm = false;
-        with(ek, [&](auto& A) {
-          typedef typename std::decay<decltype(A)>::type AT;
-          if constexpr (rank_of<AT>::value == 1) {
-            Index n = A.dimension(0);
-            if (!(a >= 0 && a < n && b >= 0 && b < n) && !BOUNDS) { unm = true; return; }
-            AT d(A(range(a, b)));
-            out << "ok view"; show1(out, d);
-          }
-        });
-        if (unm) { std::cout << "unmodelled\n"; continue; }
-      } else if (w[0] == "reshape" && w.size() == 4 && ek.rank == 1) {
-        Index a = atoi(w[2].c_str()), b = atoi(w[3].c_str());
-        with(ek, [&](auto& A) {
-          typedef typename std::decay<decltype(A)>::type AT;
-          if constexpr (rank_of<AT>::value == 1) {
-            Array<2, typename elem_of<AT>::type, false> d(A.reshape(a, b));
-            out << "ok view"; show2(out, d);
-          }
-        });
-      } else if (w[0] == "clear" && w.size() == 2) {
-        with(ek, [&](auto& A) { A.clear(); });
-        out << "ok";
-      } else { std::cout << "bad-op\n"; continue; }
-      std::cout << out.str() << involved(hs) << "\n";
+      }
+      if (r == R_UNMODELLED) { std::cout << "unmodelled\n"; continue; }
+      if (r != R_DONE) { std::cout << "bad-op\n"; continue; }
+      std::cout << c.out.str() << involved(c.hs) << "\n";
     } catch (const std::exception& e) {
-      std::cout << "EXC " << excname(e) << involved(hs) << "\n";
+      if (w[0] == "new" && c.hs.empty()) c.hs.push_back(L(w[1]));
+      std::string name;
+      if (dynamic_cast<const size_mismatch*>(&e)) name = "size_mismatch";
+      else if (dynamic_cast<const inner_dimension_mismatch*>(&e)) name = "inner_dimension_mismatch";
+      else if (dynamic_cast<const empty_array*>(&e)) name = "empty_array";
+      else if (dynamic_cast<const invalid_dimension*>(&e)) name = "invalid_dimension";
+      else if (dynamic_cast<const index_out_of_bounds*>(&e)) name = "index_out_of_bounds";
+      else if (dynamic_cast<const invalid_operation*>(&e)) name = "invalid_operation";
+      else if (dynamic_cast<const matrix_ill_conditioned*>(&e)) name = "matrix_ill_conditioned";
+      else if (dynamic_cast<const feature_not_available*>(&e)) name = "feature_not_available";
+      else if (dynamic_cast<const adept::exception*>(&e)) name = std::string("other-adept-exception:") + e.what();
+      else name = std::string("std-exception:") + e.what();
+      bool act = false;
+      for (size_t q = 0; q < c.hs.size(); ++q) if (pool.count(c.hs[q]) && pool[c.hs[q]].kind == K_ACT) act = true;
+      if (w[0] == "new" && w.size() > 2 && w[2] == "a") act = true;
+      std::cout << "EXC " << name;
+      if (act) std::cout << " rec+" << (long)(g_stack->n_statements() - c.ns0) << "+" << (long)(g_stack->n_operations() - c.no0);
+      std::cout << involved(c.hs) << "\n";
     }
   }
   cleanup();
+  delete g_stack;
   return 0;
 }
+#endif
